@@ -70,7 +70,7 @@ package pdf
 //@ pred R(s *scanner) = 0 <= s.pos && s.pos <= s.used && s.used <= len(s.buf) && len(s.buf) == 1024 && s.src != nil
 //@   | && 0 <= s.P0 && s.P0 <= s.filePos && s.P0 <= 281474976710656 && len(s.src.stream) <= 281474976710656
 //@   | && s.src.rdpos == s.filePos - s.P0 + s.used && s.src.rdpos <= len(s.src.stream)
-//@   | && (forall j in offof(s.buf)..offof(s.buf)+s.used :: raw(s.buf)[j] == s.src.stream[s.filePos - s.P0 + j - offof(s.buf)])
+//@   | && (forall j in offof(s.buf)+s.pos..offof(s.buf)+s.used :: raw(s.buf)[j] == s.src.stream[s.filePos - s.P0 + j - offof(s.buf)])
 //@   | && (s.err != nil ==> s.src.fails && s.src.rdpos == len(s.src.stream) && s.err != io.EOF && s.err != io.ErrUnexpectedEOF && !malformed(s.err))
 //@ pred apos(s *scanner) = s.filePos + s.pos
 
